@@ -86,7 +86,8 @@ open RS.SrcI RS.RustI in
     translated on every run), driven by the model's accessors: ANY number `n` of further `next` calls after the
     last shard answers `None`, the shards come out in the documented order, no call panics (`some …`), and
     `Drop` of both result objects calls `reset_received` (the bookkeeping of `source_accessors`), and constructing a
-    result object only borrows the work object. -/
+    result object only borrows the work object; `recovery_iter()` / `restored_original_iter()` are `Recovery::new` /
+    `RestoredOriginal::new` on that work object (the initial iterator state the first two clauses start from). -/
 theorem source_iterators (w : EncWork) (d : DecWork) (hr : w.r ≤ 65536) (hk : d.k ≤ 65536) (n : Nat) :
     takeN (Recovery_next w.k w.recovery) (w.r + n) Recovery_new =
       some (w.recoveryList.map some ++ List.replicate n none) ∧
@@ -94,8 +95,9 @@ theorem source_iterators (w : EncWork) (d : DecWork) (hr : w.r ≤ 65536) (hk : 
       some (d.restoredList.map some ++ List.replicate n none) ∧
     EncoderResult_drop_calls_reset_received = true ∧ DecoderResult_drop_calls_reset_received = true ∧
     EncoderResult_recovery_delegates = true ∧ DecoderResult_restored_original_delegates = true ∧
-    EncoderResult_new_is_the_work = true ∧ DecoderResult_new_is_the_work = true := by
-  refine ⟨?_, ?_, rfl, rfl, rfl, rfl, rfl, rfl⟩
+    EncoderResult_new_is_the_work = true ∧ DecoderResult_new_is_the_work = true ∧
+    EncoderResult_recovery_iter_is_new = true ∧ DecoderResult_restored_original_iter_is_new = true := by
+  refine ⟨?_, ?_, rfl, rfl, rfl, rfl, rfl, rfl, rfl, rfl⟩
   · rw [src_new_is_initial.1, src_recovery_take w w.k hr (w.r + n) {} (Nat.zero_le _), recoveryTake_eq]
   · rw [src_new_is_initial.2, src_restored_take d hk (d.restoredList.length + n) {}, restoredTake_eq]
 
